@@ -529,6 +529,11 @@ func (l *Lexer) Advance() bool {
 			break
 		}
 
+		// a NUL rune inside the source is not the end of input: skip it like white space
+		if char == 0 && !l.reader.IsEOF() {
+			return l.Advance()
+		}
+
 		return false
 	}
 
